@@ -152,6 +152,11 @@ def writer_rows(F):
 def var_writer_table(F, name):
     """Writer::u32_var / i32_var: set of (opcode offset k, number of payload bytes pushed)"""
     fn = _one(F, "dvi::serialize::Writer::" + name)
+    # bytes appended by anything other than Vec::push (extend_from_slice, extend, resize, ...) have a length this extraction cannot derive
+    other = sorted({strip_generics(callee_name(t) or "").split("::")[-1] for bi, t in fn.calls()
+                    if strip_generics(callee_name(t) or "").split("::")[-1] in ("extend_from_slice", "extend", "append", "resize", "extend_from_within", "insert", "write", "write_all")})
+    if other:
+        return None, (fn, other)
     models = {"core::convert::TryInto::try_into": _tryinto, "<T as core::convert::TryInto>::try_into": _tryinto}
     e = EDT(F, fn, interesting_calls=["Vec::push"], call_models=models, sym_args={2: "base", 3: "x"})
     out = set()
@@ -199,6 +204,11 @@ def r16_1(F, R):
     # var writers
     for name in ("u32_var", "i32_var"):
         tab, wf = var_writer_table(F, name)
+        if tab is None:
+            wf, other = wf
+            R.undecided("R16.1", "Writer::" + name, "Writer::%s appends its payload with %s: the number of bytes per opcode offset is not derivable by "
+                        "finite-domain specialisation (no verdict for this helper)" % (name, "/".join(other)), "%s:%d" % (wf.file, wf.line))
+            continue
         if tab == {(0, 1), (1, 2), (2, 3), (3, 4)}:
             R.ok("R16.1", "Writer::" + name, "offset k -> k+1 payload bytes, k=0..3", "%s:%d" % (wf.file, wf.line), how="edt")
         else:
